@@ -143,6 +143,7 @@ func Load(repoDir string, overlay map[string][]byte) (*Prog, error) {
 	}
 	P.collectFuncs()
 	P.buildCallGraph()
+	curProg = P
 	return P, nil
 }
 
